@@ -13,6 +13,12 @@ func VerifSelServer(index uint32) *Server {
 	return &Server{Index: index, stateMgr: &StateMgr{}}
 }
 
+// VerifSelServerWithConfig additionally has an INSTALLED chain config (Server.config), as every running server has;
+// it may differ from the chain config passed to buildParticipantConfig in the round after a config-change block.
+func VerifSelServerWithConfig(index uint32, installed *vconfig.ChainConfig) *Server {
+	return &Server{Index: index, stateMgr: &StateMgr{}, config: installed}
+}
+
 func (self *Server) VerifBuildParticipantConfig(blkNum uint32, block *Block, chainCfg *vconfig.ChainConfig) (*BlockParticipantConfig, error) {
 	return self.buildParticipantConfig(blkNum, block, chainCfg)
 }
